@@ -73,7 +73,9 @@ Proof.
     apply app_eq_nil in E as [_ E]. discriminate. }
   rewrite Hlast. cbn [hd]. rewrite !Z.eqb_refl. cbn [andb negb].
   unfold inner. cbn [tl]. rewrite removelast_last. rewrite <- Ed.
-  unfold parse_u64. rewrite parse_digits by (try discriminate; lia).
+  unfold parse_u64.
+  assert (Hv20 : 0 <= v < 10 ^ Z.of_nat 20) by (split; [apply Hv|eapply Z.lt_trans; [apply Hv|exact Hlt]]).
+  rewrite (parse_digits 20 v ltac:(discriminate) Hv20).
   replace (v <? 2 ^ 64) with true by (symmetry; apply Z.ltb_lt; lia). reflexivity.
 Qed.
 
